@@ -7,6 +7,14 @@ import json, os, subprocess
 ROOT = os.path.dirname(os.path.dirname(os.path.abspath(__file__)))
 
 CHECKS = {
+    "C17": dict(cat="exploration", sec="5 C17",
+                tech="runtime monitor: one hostile JOSE/LD-proof variant generator applied to valid tokens of seven real consumers; accept => independently re-verified single asymmetric signature by the mandated key",
+                text="One generator (23 variant classes: alg none/HS*/other family/other curve, signature removed/truncated/DER, JSON serialisation with 0/1/2 signatures or unprotected headers, injected jwk/jku/x5c/x5u "
+                     "re-signed by an attacker key, foreign kid, key swap, embedded private jwk, altered protected bytes, non-canonical encodings) is applied to 12 valid instances of 7 consumers on real code: credential JWT and "
+                     "presentation JWT (verifier API of a full node), authorization request object (captured from a real OpenID4VP flow), DPoP proof (validate endpoint and token-endpoint header), internal-API bearer token "
+                     "(second node with token_v2), DAG transaction (ParseTransaction + signature verifier + State.Add), JSON-LD proof. Oracle: every variant classified hostile must be rejected; every accepted token is re-verified "
+                     "with crypto/ecdsa|rsa over the received bytes with the protocol-mandated key; identical-content re-encodings are unspecified.",
+                note="Valid instances use P-256/RSA keys (no EdDSA/P-384 instances); legacy v1 tokens not covered; classification hostile/benign is the generator's."),
     "C11": dict(cat="exploration", sec="5 C11",
                 tech="runtime monitor: reference bit-set/slot model vs a full node's StatusList2021 issuer, served lists and verifier verdicts; concurrent issuance + page roll-over by ageing; harness-served external lists; race detector",
                 text="A complete in-process node issues credentials with status entries for 3-4 issuers sequentially, from 8-32 goroutines and across page roll-overs (page counter aged by SQL to 3 before the end, "
@@ -43,7 +51,7 @@ CHECKS = {
                      "yielding fresh valid secrets (authorization code, both request objects, OpenID4VP nonce, s2s nonce, DPoP jti). Each is presented by 2-3 actors steered at "
                      "session-store operation hooks (seeded schedules, distinct interleavings counted), by 8-16 unsteered actors under the race detector, and sequentially afterwards; "
                      "codes are also spoiled by a failing redemption first. Oracle: at most one presentation per value succeeds; spoiled codes are dead.",
-                note="In-memory session store only (no redis/memcached in the sandbox); interleavings at hook granularity; after-window replay with future-dated presentations not built."),
+                note="In-memory session store only (no redis/memcached in the sandbox); interleavings at hook granularity; after-window replay uses a harness-signed future-dated JSON-LD presentation and ~11.5 s of real waiting (stopwatch-guarded)."),
     "C08": dict(cat="fault_enumeration", sec="5 C08",
                 tech="runtime monitor: reference-model fold vs real dag.State at quiescent points + write-op fault enumeration + SIGKILL crash workers + hook-steered interleavings + race detector",
                 text="Runs the real dag.State on bbolt through valid histories (page and tree-growth boundaries), rejected and duplicate adds, every single failing "
